@@ -97,6 +97,7 @@ def parse_type(s: str) -> T:
     if s == "Str": return TSeq("str", TInt())
     if s == "Path": return TSeq("tuple", TInt())
     if s.startswith("Rec:"): return TRec(s[4:])
+    if s.startswith("Sort:"): return TSort(s[5:])
     m = re.match(r"^(\w+)\[(.*)\]$", s)
     if m:
         head, inner = m.group(1), m.group(2)
@@ -131,6 +132,12 @@ class VNone(V):
 
 class VAny(V):
     def __init__(self, t): self.t = t
+
+
+class TSort(T):
+    """value of an uninterpreted sort used only in specifications"""
+    def __init__(self, name: str): self.name = name
+    def __repr__(self): return f"Sort:{self.name}"
 
 
 class VNStr(V):
@@ -231,6 +238,8 @@ class Factory:
             return VNStr(_uf(name, args, z3.StringSort()))
         if isinstance(t, TRec):
             return VRec(t.name, _uf(name, args, sort_of(t.name)))
+        if isinstance(t, TSort):
+            return VAny(_uf(name, args, sort_of(t.name)))
         if isinstance(t, TSeq):
             length = _uf(name + ".len", args, z3.IntSort())
             return VSeq(t.kind, length, lambda i, t=t, name=name, args=args: self.mk(t.elt, name + ".el", args + [i]), t.elt)
